@@ -6,3 +6,5 @@ open Cache
 #print axioms C17_spacing
 #print axioms C17_rejected_runs_none
 #print axioms C17_run_spacing
+#print axioms C17_accepted_when_elapsed
+#print axioms C17_rejected_only_within_interval
